@@ -660,7 +660,9 @@ class TransverselyIsotropic(_Elastic):
 
         kt = self.kt
 
-        dtype = object if isinstance(kt, np.ndarray) else float
+        # Gl does not enter kt: look at every parameter to detect a heterogeneous field
+        params = [El, Et, vt, vl, Gl, kt]
+        dtype = object if True in [isinstance(p, np.ndarray) for p in params] else float
 
         # Kelvin-Mandel compliance and stiffness matrices in the material's coordinate system.
         # L = (1, 0, 0)
